@@ -4,8 +4,19 @@ from pyvc.contracts import cls, fn
 cls(
     "hypercorn.protocol.h2:StreamBuffer",
     fields={"buffer": "bytes", "_complete": "bool", "_is_empty": "Event", "_paused": "Event"},
+    # the stream layer has asked for the end of the stream (EndBody / EndData reached set_complete)
+    # -- as opposed to a buffer sealed by close(), which is being thrown away
+    ghost={"g_end_requested": "bool"},
+    # C05 (I3 of H2Protocol, stated on the element): a buffer that is registered in a protocol's
+    # table -- held at a suspension point or at exit -- is sealed only because the stream layer
+    # asked for the end of the stream.  close() seals a buffer that is being thrown away; such a
+    # buffer must not stay registered, or the send task would END_STREAM a response that was
+    # never completed.  (Proved for every element a unit touched, assumed for every element it
+    # takes out of the table.)
+    published_inv=[("StreamBuffer.published.sealed-by-request", "implies(self._complete, self.g_end_requested)", "C05,C02")],
     inv=[("StreamBuffer.inv.events-clearable", "not self._is_empty.g_sticky and not self._paused.g_sticky", "C08")],
-    rely=[("StreamBuffer.rely.complete-monotone", "implies(old(self._complete), self._complete)")],
+    rely=[("StreamBuffer.rely.complete-monotone", "implies(old(self._complete), self._complete)"),
+          ("StreamBuffer.rely.end-requested-monotone", "implies(old(self.g_end_requested), self.g_end_requested)")],
 )
 
 fn(
@@ -30,7 +41,7 @@ fn(
     "hypercorn.protocol.h2:StreamBuffer.__init__",
     params={"event_class": "evclass"},
     ensures=[
-        ("init.empty", "len(self.buffer) == 0 and not self._complete"),
+        ("init.empty", "len(self.buffer) == 0 and not self._complete and not self.g_end_requested"),
         ("init.flags", "not self._is_empty.flag and not self._paused.flag"),
     ],
     props=("C08",),
@@ -43,6 +54,9 @@ fn(
         # C08: a send returns only when the data held is below the bound, or the buffer was
         # force-closed meanwhile (released, never stuck)
         ("C08.bound.push", "len(self.buffer) < BUFFER_HIGH_WATER or not self._paused.flag or self._complete", "C08"),
+        # C12 / C02: nothing is appended once the end of the body was requested -- a push that
+        # returns normally found the buffer unsealed (whether or not sealed data is still queued)
+        ("C12.push.sealed-rejects", "not old(self._complete)", "C12,C02,C08"),
     ],
     raises={"BufferCompleteError": {"when": "self._complete", "ensures": [("push.raise.unchanged", "self.buffer == old(self.buffer)", "C02")]}},
     props=("C08",),
@@ -51,8 +65,9 @@ fn(
 fn(
     "hypercorn.protocol.h2:StreamBuffer.set_complete",
     params={},
-    ensures=[("set_complete.post", "self._complete")],
-    modifies=["self._complete"],
+    ensures=[("set_complete.post", "self._complete and self.g_end_requested")],
+    ghost_post=["self.g_end_requested = True"],
+    modifies=["self._complete", "self.g_end_requested"],
     effect="atomic",
     props=("C02",),
 )
@@ -79,4 +94,7 @@ fn(
     props=("C09",),
 )
 
-fn("hypercorn.protocol.h2:StreamBuffer.drain", params={}, modifies=[], effect="yields", props=("C08",))
+fn("hypercorn.protocol.h2:StreamBuffer.drain", params={}, modifies=[], effect="yields",
+   # drain() is called on a registered buffer (by stream_send, after set_complete)
+   requires=[("drain.pre.registered", "implies(self._complete, self.g_end_requested)")],
+   props=("C08",))
